@@ -992,6 +992,35 @@ impl Prop for C15 {
     fn profiles(&self, tier: Tier) -> Vec<(Profile, usize)> {
         vec![(p_actions(), tier.pick(160, 2000)), (p_eoi(), tier.pick(120, 1500))]
     }
+    fn custom_specs(&self, tier: Tier, _r: &mut TestRunner) -> Vec<(&'static str, Spec)> {
+        // several table-sized classes in one lexer: generated lookup helpers and tables are shared
+        // by all instances of the lexer type, so hidden state there would couple clones and runs
+        use oracle::re::{cat, plus, star, Re};
+        let names = ["XID_Start", "XID_Continue", "numeric", "lowercase", "uppercase", "alphabetic"];
+        let mut out = vec![];
+        let n = tier.pick(10, 30);
+        for i in 0..n {
+            let a = names[i % names.len()];
+            let b = names[(i / 2 + 1) % names.len()];
+            let c = names[(i + 3) % names.len()];
+            if a == b || b == c {
+                continue;
+            }
+            let bi = |n: &str| Re::Builtin(n.to_string());
+            let rules = vec![
+                (cat(bi(a), star(bi(b))), None),
+                (plus(bi(c)), if i % 3 == 0 { Some(bi(b)) } else { None }),
+                (plus(Re::Set(vec![oracle::re::SetItem::C(' '), oracle::re::SetItem::C('\n')])), None),
+            ];
+            let mut s = crate::props2::simple_spec(rules, i % 2 == 0, vec![]);
+            // log the actions of the first rule so that match_loc()/peek() are compared too
+            if let Some(r0) = s.rules_mut().into_iter().next() {
+                r0.kind = oracle::spec::Kind::Ret;
+            }
+            out.push(("tables", s));
+        }
+        out
+    }
     fn cases(&self, ctx: &SpecCtx, comp: &mut Compiled, r: &mut TestRunner, tier: Tier) -> Vec<Case> {
         use proptest::prelude::*;
         let mut plan = std_plan(tier, true);
